@@ -182,7 +182,7 @@ def random_case(rng):
     t = rng.randrange(-n, n)
     L = rng.choice([0, 1, 2, 3, 4, 5])
     alpha = rng.choice([ALPHA, ['close', 'same', 'edge', 'far', 'one'], ['far', 'close', 'same', 'keep'],
-                        ['pinf', 'ninf', 'nan', 'zero', 'zero', 'same', 'close'],
+                        ['pinf', 'ninf', 'allinf', 'allninf', 'nan', 'zero', 'zero', 'same', 'close'],
                         ['huge', 'huge', 'far', 'same', 'close']])
     seq = [rng.choice(alpha) for _ in range(L)]
     M = rng.choice([-1, 0, 1, 2, 3, L, L + 1, L + 2])
